@@ -42,6 +42,7 @@ fn main() {
         "c11" => lg::c11(&a),
         "c12" => lg::c12(&a),
         "show" => show::main(&a),
+        "c14" => lg::c14(&a),
         other => {
             eprintln!("unknown subcommand {other}");
             std::process::exit(2);
